@@ -27,6 +27,13 @@ def make_scenarios(ctx, count, nops):
         s.add("NOW %d" % now)
         s.add("AI 0")
         ops.append(("AI",))
+        # half of the sequences run beside a second interface of the same process (own table, own sessions) that the
+        # daemon's loop ticks first in every pass; its inputs are not judged, the table under test must not notice it
+        shadow = i % 2 == 1
+        if shadow:
+            s.iface(1, mtu=1500, mac=G.rand_mac(rng))
+            s.add("AI 1")
+            s.add("TA 1 %s 1 1" % G.rand_mac(rng).hex())
         for _ in range(nops):
             r = rng.random()
             k = rng.choice(keys)
@@ -52,6 +59,10 @@ def make_scenarios(ctx, count, nops):
                 s.add("ADV %d" % ms)
                 ops.append(("ADV", ms))
             elif r < p_add + 0.52:
+                if shadow and rng.random() < 0.8:
+                    if rng.random() < 0.2:
+                        s.add("TA 1 %s %d 1" % (G.rand_mac(rng).hex(), rng.randint(0, 3)))
+                    s.add("K 1")
                 s.add("K 0")
                 ops.append(("K",))
             elif r < p_add + 0.53:
@@ -66,7 +77,7 @@ def make_scenarios(ctx, count, nops):
             else:
                 s.add("TU 0")
                 ops.append(("TU",))
-        s.meta = dict(ops=ops, now=now, subsec=subsec)
+        s.meta = dict(ops=ops, now=now, subsec=subsec, shadow=shadow)
         scns.append(s)
     return scns
 
@@ -96,9 +107,11 @@ def monitor(scn, sobj, rep, sf, ck):
     now_ms = sobj.meta["now"]
     model = {}      # key -> dict(seq, complete, last, slot)
     prev_ents = {}
-    it = iter(scn.inputs)
+    it = iter(i for i in scn.inputs if i.iface == 0)
     seen = set()
     nops = 0
+    if sobj.meta.get("shadow"):
+        rep.count("ticks_beside_a_second_interface", sum(1 for i in scn.inputs if i.iface == 1 and i.op == "K"))
 
     def bad(key, msg, i):
         rep.violation("C16:" + key, "scenario %s op #%d %r: %s" % (scn.sid, i, ops[i], msg), replay=sobj.text())
@@ -253,3 +266,4 @@ def run(ctx):
     c = rep.counters
     for name in ("full-reject", "refresh", "expiry-with-survivors", "clear", "remove", "allc=1/nonempty", "allc=0/nonempty", "allc=1/empty"):
         rep.need(name, c.get("reach:" + name, 0), 20)
+    rep.need("ticks_beside_a_second_interface", c.get("ticks_beside_a_second_interface", 0), 1000)
